@@ -57,6 +57,113 @@ func c11Registries(c *core.Ctx) []c11Registry {
 	return out
 }
 
+// c11RegCall: call is a method call on an entity registry — directly on one of the registry
+// fields, or through a handle (a value of type sync.Map / *sync.Map in the packages that own
+// the registries, e.g. `objects := kind.objects(space); objects.Store(name, entity)`).
+// For Store-like methods through a handle the stored value must be an *ObjectEntity.
+func c11RegCall(f *flow.Func, call *ast.CallExpr, regs []c11Registry, methods ...string) (string, bool) {
+	sel, ok := ast.Unparen(call.Fun).(*ast.SelectorExpr)
+	if !ok {
+		return "", false
+	}
+	if len(methods) > 0 {
+		hit := false
+		for _, m := range methods {
+			if sel.Sel.Name == m {
+				hit = true
+			}
+		}
+		if !hit {
+			return "", false
+		}
+	}
+	for _, r := range regs {
+		if c11FieldCall(f, call, r.field) {
+			return r.name, true
+		}
+	}
+	tv, ok := f.Info.Types[sel.X]
+	if !ok || tv.Type == nil || !c11IsNamed(tv.Type, "sync", "Map") {
+		return "", false
+	}
+	if s := f.Info.Selections[sel]; s == nil || s.Kind() != types.MethodVal {
+		return "", false
+	}
+	rel := relPkg(f.Pkg.PkgPath)
+	if rel != c11TC && rel != c11Sup {
+		return "", false
+	}
+	switch sel.Sel.Name {
+	case "Store", "LoadOrStore", "Swap":
+		if len(call.Args) < 2 {
+			return "", false
+		}
+		if av, ok := f.Info.Types[call.Args[1]]; !ok || av.Type == nil || !c11IsNamed(av.Type, Mod+c11Sup, "ObjectEntity") {
+			return "", false
+		}
+	}
+	return "registry handle " + types.ExprString(sel.X), true
+}
+
+// c11DerivedRoot follows a root identifier through single-assignment locals:
+// `newSpec := entity.Spec()` makes newSpec derive from entity.
+func c11DerivedRoot(f *flow.Func, id *ast.Ident) types.Object {
+	var obj types.Object
+	for depth := 0; id != nil && depth < 4; depth++ {
+		obj = f.Info.Uses[id]
+		if obj == nil {
+			obj = f.Info.Defs[id]
+		}
+		v, ok := obj.(*types.Var)
+		if !ok || v.IsField() || !(f.Body.Pos() <= v.Pos() && v.Pos() < f.Body.End()) {
+			return obj // parameter, receiver, package-level: a root
+		}
+		var src ast.Expr
+		n := 0
+		ast.Inspect(f.Body, func(x ast.Node) bool {
+			switch as := x.(type) {
+			case *ast.AssignStmt:
+				for i, l := range as.Lhs {
+					if lid, ok := l.(*ast.Ident); ok && (f.Info.Defs[lid] == obj || f.Info.Uses[lid] == obj) {
+						n++
+						if len(as.Rhs) == len(as.Lhs) {
+							src = as.Rhs[i]
+						} else {
+							src = nil
+						}
+					}
+				}
+			case *ast.ValueSpec:
+				for i, lid := range as.Names {
+					if f.Info.Defs[lid] == obj {
+						n++
+						if i < len(as.Values) {
+							src = as.Values[i]
+						}
+					}
+				}
+			case *ast.RangeStmt:
+				for _, e := range []ast.Expr{as.Key, as.Value} {
+					if lid, ok := e.(*ast.Ident); ok && f.Info.Defs[lid] == obj {
+						n += 2
+					}
+				}
+			}
+			return true
+		})
+		if n != 1 || src == nil {
+			return obj
+		}
+		// only value-preserving derivations: selector / method-call / assertion chains
+		next := c11RootIdent(src)
+		if next == nil {
+			return obj
+		}
+		id = next
+	}
+	return obj
+}
+
 func c11RootIdent(e ast.Expr) *ast.Ident {
 	for {
 		switch x := ast.Unparen(e).(type) {
@@ -109,11 +216,9 @@ func c11AnalyzeEntities(c *core.Ctx, f *flow.Func, regs []c11Registry) *c11Entit
 		if calleeIs(f, call, c11InitFn, c11InheritFn) {
 			ef.builds = append(ef.builds, call)
 		}
-		for _, r := range regs {
-			if c11FieldCall(f, call, r.field, "Store", "LoadOrStore", "Swap") && len(call.Args) >= 2 {
-				ef.pubs = append(ef.pubs, call)
-				ef.pubReg[call] = r
-			}
+		if name, ok := c11RegCall(f, call, regs, "Store", "LoadOrStore", "Swap"); ok && len(call.Args) >= 2 {
+			ef.pubs = append(ef.pubs, call)
+			ef.pubReg[call] = c11Registry{name: name}
 		}
 	}
 	isBuild := map[*ast.CallExpr]bool{}
@@ -185,14 +290,37 @@ func c11PublishOrder(c *core.Ctx) {
 			}
 		}
 		sort.Slice(fds, func(i, j int) bool { return fds[i].Pos() < fds[j].Pos() })
+		type unit struct {
+			f    *flow.Func
+			fd   *ast.FuncDecl
+			name string
+		}
+		var units []unit
 		for _, fd := range fds {
-			f := flow.NewFunc(pkg, fd)
-			has := false
-			for _, call := range calls(fd.Body, false) {
-				for _, r := range regs {
-					if c11FieldCall(f, call, r.field, "Store", "LoadOrStore", "Swap") {
-						has = true
+			f0 := flow.NewFunc(pkg, fd)
+			units = append(units, unit{f0, fd, declName(pkg, fd)})
+			// a body moved into a closure (tc.withLock(func() {...})) is analysed as a unit of its own
+			k := 0
+			var lits func(n ast.Node)
+			lits = func(n ast.Node) {
+				ast.Inspect(n, func(x ast.Node) bool {
+					if lit, ok := x.(*ast.FuncLit); ok {
+						k++
+						units = append(units, unit{f0.Lit(lit), fd, sprintf("%s$closure%d", declName(pkg, fd), k)})
+						lits(lit.Body)
+						return false
 					}
+					return true
+				})
+			}
+			lits(fd.Body)
+		}
+		for _, u := range units {
+			f, fd := u.f, u.fd
+			has := false
+			for _, call := range calls(f.Body, false) {
+				if _, ok := c11RegCall(f, call, regs, "Store", "LoadOrStore", "Swap"); ok {
+					has = true
 				}
 			}
 			if !has {
@@ -203,7 +331,7 @@ func c11PublishOrder(c *core.Ctx) {
 			if ef == nil {
 				continue
 			}
-			name := declName(pkg, fd)
+			name := u.name
 			nPub += len(ef.pubs)
 			nBuild += len(ef.builds)
 			// several Store sites of the same registry in one function (create / update branch)
@@ -267,19 +395,77 @@ func c11PublishOrder(c *core.Ctx) {
 			}
 		}
 	}
-	c.RequireCount("R-C11-2", "registry Store sites (pipelines, trafficGates, businessControllers, systemControllers)", nPub, 10)
-	c.RequireCount("R-C11-2", "Init/InheritWithRecovery sites in publishing functions", nBuild, 10)
+	c.RequireCount("R-C11-2", "registry Store sites (pipelines, trafficGates, businessControllers, systemControllers)", nPub, 4)
+	c.RequireCount("R-C11-2", "Init/InheritWithRecovery sites in publishing functions", nBuild, 4)
+	c11APICoverage(c, "R-C11-2", regs)
+}
+
+// c11APICoverage is the vacuity guard of the entity rules stated over the exported API:
+// every Create/Update/Apply method of TrafficController must reach (through same-package
+// calls) a function that stores an entity into a registry, however the bodies are shared.
+func c11APICoverage(c *core.Ctx, rule string, regs []c11Registry) {
+	n := 0
+	for _, m := range []string{"CreatePipeline", "UpdatePipeline", "ApplyPipeline", "CreateTrafficGate", "UpdateTrafficGate", "ApplyTrafficGate"} {
+		f := fnOpt(c, c11TC, "TrafficController", m)
+		if f == nil {
+			continue
+		}
+		hit := false
+		for _, g := range reach(f, 4) {
+			for _, call := range calls(g.Body, true) {
+				if _, ok := c11RegCall(g, call, regs, "Store", "LoadOrStore", "Swap"); ok {
+					hit = true
+				}
+			}
+		}
+		if hit {
+			n++
+		}
+	}
+	c.RequireCount(rule, "exported Create/Update/Apply methods of TrafficController that reach a registry Store", n, 6)
 }
 
 // c11NoOp: R-C11-4.
 func c11NoOp(c *core.Ctx) {
 	regs := c11Registries(c)
+	done := map[ast.Node]bool{}
 	for _, m := range []string{"ApplyPipeline", "ApplyTrafficGate"} {
-		f := fn(c, c11TC, "TrafficController", m)
-		if f == nil {
+		f0 := fn(c, c11TC, "TrafficController", m)
+		if f0 == nil {
 			continue
 		}
-		name := fname(c11TC, "TrafficController", m)
+		// the function that decides create / no-op / update: ApplyX itself or the shared
+		// same-package worker it delegates to (the one holding the InheritWithRecovery site)
+		var f *flow.Func
+		fname0 := ""
+		for _, g := range reach(f0, 3) {
+			if len(callsTo(g, g.Body, false, c11InheritFn)) > 0 {
+				f, fname0 = g, declName(g.Pkg, g.Node.(*ast.FuncDecl))
+				break
+			}
+			// the body may live in a closure handed to a helper (withLock(func() {...}))
+			ast.Inspect(g.Body, func(x ast.Node) bool {
+				if lit, ok := x.(*ast.FuncLit); ok && f == nil {
+					gl := g.Lit(lit)
+					if len(callsTo(gl, gl.Body, false, c11InheritFn)) > 0 {
+						f, fname0 = gl, declName(g.Pkg, g.Node.(*ast.FuncDecl))+"$closure"
+					}
+				}
+				return true
+			})
+			if f != nil {
+				break
+			}
+		}
+		if f == nil {
+			c.RequireCount("R-C11-4", "InheritWithRecovery sites reachable from "+m, 0, 1)
+			continue
+		}
+		if done[f.Node] {
+			continue // both methods share one worker: already decided
+		}
+		done[f.Node] = true
+		name := fname0
 		ef := c11AnalyzeEntities(c, f, regs)
 		if ef == nil {
 			continue
@@ -314,7 +500,7 @@ func c11NoOp(c *core.Ctx) {
 				if a == nil || b == nil || entObj == nil {
 					continue
 				}
-				ao, bo := f.Info.Uses[a], f.Info.Uses[b]
+				ao, bo := c11DerivedRoot(f, a), c11DerivedRoot(f, b)
 				if (ao == entObj) != (bo == entObj) {
 					guards = append(guards, e)
 				}
@@ -434,7 +620,7 @@ func c11NoOp(c *core.Ctx) {
 		if a == nil || b == nil {
 			continue
 		}
-		ao, bo := f.Info.Uses[a], f.Info.Uses[b]
+		ao, bo := c11DerivedRoot(f, a), c11DerivedRoot(f, b)
 		if (ao == entObj) != (bo == entObj) {
 			guards = append(guards, e)
 			if ao == entObj {
@@ -517,12 +703,25 @@ func c11Isolation(c *core.Ctx) {
 			f := flow.NewFunc(p, fd)
 			okSel := map[*ast.SelectorExpr]bool{}
 			parents := parentMap(fd.Body)
+			// taking the address of a registry (a handle) does not replace it
+			ast.Inspect(fd.Body, func(n ast.Node) bool {
+				if ue, ok := n.(*ast.UnaryExpr); ok && ue.Op == token.AND {
+					if sel, ok := ast.Unparen(ue.X).(*ast.SelectorExpr); ok {
+						okSel[sel] = true
+					}
+				}
+				return true
+			})
 			for _, call := range calls(fd.Body, true) {
-				for _, r := range regs {
-					if !c11FieldCall(f, call, r.field) {
+				{
+					rname, isReg := c11RegCall(f, call, regs)
+					if !isReg {
 						continue
 					}
-					okSel[ast.Unparen(ast.Unparen(call.Fun).(*ast.SelectorExpr).X).(*ast.SelectorExpr)] = true
+					if inner, ok := ast.Unparen(ast.Unparen(call.Fun).(*ast.SelectorExpr).X).(*ast.SelectorExpr); ok {
+						okSel[inner] = true
+					}
+					r := c11Registry{name: rname}
 					m := methodName(call)
 					if (m == "Store" || m == "LoadOrStore" || m == "Swap") && len(call.Args) >= 2 {
 						stores++
@@ -547,7 +746,7 @@ func c11Isolation(c *core.Ctx) {
 						uses[r.name]++
 						if !okSel[sel] {
 							c.Violate("R-C11-5", declName(p, fd)+"|"+r.name+" accessed only through sync.Map methods", pos(c, sel),
-								"the registry map is assigned, copied or has its address taken: replacing it wholesale drops every other object registered in it")
+								"the registry map is assigned or copied: replacing it wholesale drops every other object registered in it")
 						}
 					}
 				}
@@ -555,10 +754,8 @@ func c11Isolation(c *core.Ctx) {
 			})
 		})
 	}
-	for _, r := range regs {
-		c.RequireCount("R-C11-5", "uses of "+r.name, uses[r.name], 3)
-	}
-	c.RequireCount("R-C11-5", "keyed Store sites", stores, 9)
+	c.RequireCount("R-C11-5", "keyed Store sites", stores, 4)
+	c11APICoverage(c, "R-C11-5", regs)
 	bad := false
 	for _, o := range c.Obligations {
 		if o.Rule == "R-C11-5" && o.Verdict == core.Violated && strings.Contains(o.Construct, "accessed only through") {
@@ -732,5 +929,5 @@ func c11PipelineImmutable(c *core.Ctx) {
 				sprintf("%s is assigned in a function that runs (or can run) after the pipeline has been published: a request walking the flow of this generation sees filters/flow of two generations", what))
 		}
 	}
-	c.RequireCount("R-C11-2", "stores to Pipeline fields / FlowNode.filter", n, 5)
+	c.RequireCount("R-C11-2", "stores to Pipeline fields / FlowNode.filter", n, 2)
 }
